@@ -81,6 +81,98 @@ def presOfflineFilter (mode : Mode) (what : String) (filterIn filterOut : Mode) 
   else if what = "upd" ∧ isJoiner mode then true
   else isPresencer mode && (filterIn = 0 || (mode &&& filterIn) ≠ 0) && (filterOut = 0 || (mode &&& filterOut) = 0)
 
+/-! ### notifications for users on their `me` topics (pres.go: presSubsOffline, presSingleUserOffline, presSingleUserOfflineOffline,
+infoSubsOffline). Each is a message to `hub.routeSrv` addressed to a user; `Model/TopicMe.lean` delivers them. -/
+
+/-- Topic.original (topic.go:3661-3676): the name the user knows the topic by -/
+def Topic.origFor (t : Topic) (u : Uid) : String :=
+  match t.name.splitOn ":" with
+  | ["P", a, b] => if u = a then b else a
+  | _ => if (t.pud u).isChan then "chn:" ++ t.name else t.name
+
+/-- the rendered parameters; actor and target are blanked when they are the recipient -/
+def presExtra (base : String) (actor target user : Uid) : String :=
+  base ++ (if target ≠ "" ∧ target ≠ user then s!" tgt={target}" else "") ++ (if actor ≠ "" ∧ actor ≠ user then s!" act={actor}" else "")
+
+/-- presSubsOffline (pres.go:432-475); `tgt` carries the target filters: the messages, in the order of the subscribers -/
+def presSubsOfflineMsgs (t : Topic) (what base : String) (actor target : Uid) (srcIn srcOut : Mode)
+    (tgt : PresMsg) (skipSid : Sid) (offlineOnly : Bool) : List (TName × PresMsg) :=
+  t.perUser.filterMap (fun (uid, pud) =>
+    if pud.deleted || !presOfflineFilter (eff pud) what srcIn srcOut then none
+    else some (uid, { tgt with what := what, src := t.origFor uid, extra := presExtra base actor target uid, skipSid := skipSid,
+                               skipTopic := if offlineOnly then t.name else "" }))
+
+def Ctx.presSubsOffline (c : Ctx) (t : Topic) (what base : String) (actor target : Uid) (srcIn srcOut : Mode)
+    (tgt : PresMsg) (skipSid : Sid) (offlineOnly : Bool) : Ctx :=
+  { c with off := c.off ++ presSubsOfflineMsgs t what base actor target srcIn srcOut tgt skipSid offlineOnly }
+
+/-- presSingleUserOffline (pres.go:587-628) -/
+def presSingleOfflineMsgs (t : Topic) (uid : Uid) (mode : Mode) (what base : String) (actor target : Uid)
+    (skipSid : Sid) (offlineOnly : Bool) : List (TName × PresMsg) :=
+  if mode ≠ modeInvalid ∧ presOfflineFilter mode what 0 0 then
+    [(uid, { what := what, src := t.origFor uid, extra := presExtra base actor target uid, wantReply := what.startsWith "?unkn",
+             skipSid := skipSid, skipTopic := if offlineOnly then t.name else "" })]
+  else []
+
+def Ctx.presSingleOffline (c : Ctx) (t : Topic) (uid : Uid) (mode : Mode) (what base : String) (actor target : Uid)
+    (skipSid : Sid) (offlineOnly : Bool) : Ctx :=
+  { c with off := c.off ++ presSingleOfflineMsgs t uid mode what base actor target skipSid offlineOnly }
+
+/-- presSingleUserOfflineOffline (pres.go:632-657) -/
+def Ctx.presSingleOfflineOffline (c : Ctx) (uid : Uid) (orig what base : String) (actor target : Uid) (skipSid : Sid) : Ctx :=
+  { c with off := c.off ++ [(uid, { what := what, src := orig, extra := presExtra base actor target uid, skipSid := skipSid })] }
+
+/-- infoSubsOffline (pres.go:479-501) -/
+def infoSubsOfflineMsgs (t : Topic) (from_ : Uid) (what : String) (seq : Int) (skipSid : Sid) : List (TName × PresMsg) :=
+  t.perUser.filterMap (fun (uid, pud) =>
+    if pud.deleted || !isPresencer (eff pud) || !isReader (eff pud) then none
+    else some (uid, { what := what, src := t.origFor uid, isInfo := true, infoFrom := from_, extra := s!" seq={seq}",
+                      skipTopic := t.name, skipSid := skipSid }))
+
+def Ctx.infoSubsOffline (c : Ctx) (t : Topic) (from_ : Uid) (what : String) (seq : Int) (skipSid : Sid) : Ctx :=
+  { c with off := c.off ++ infoSubsOfflineMsgs t from_ what seq skipSid }
+
+/-! None of them touches anything but the queue of notifications between topics. -/
+section
+variable (c : Ctx) (t : Topic) (orig what base : String) (actor target uid : Uid) (m1 m2 : Mode) (tgt : PresMsg) (sk : Sid) (b : Bool)
+@[simp] theorem Ctx.presSubsOffline_frames : (c.presSubsOffline t what base actor target m1 m2 tgt sk b).frames = c.frames := rfl
+@[simp] theorem Ctx.presSubsOffline_w : (c.presSubsOffline t what base actor target m1 m2 tgt sk b).w = c.w := rfl
+@[simp] theorem Ctx.presSubsOffline_pushes : (c.presSubsOffline t what base actor target m1 m2 tgt sk b).pushes = c.pushes := rfl
+@[simp] theorem Ctx.presSubsOffline_calls : (c.presSubsOffline t what base actor target m1 m2 tgt sk b).calls = c.calls := rfl
+@[simp] theorem Ctx.presSubsOffline_callNo : (c.presSubsOffline t what base actor target m1 m2 tgt sk b).callNo = c.callNo := rfl
+@[simp] theorem Ctx.presSubsOffline_failK : (c.presSubsOffline t what base actor target m1 m2 tgt sk b).failK = c.failK := rfl
+@[simp] theorem Ctx.presSubsOffline_crashK : (c.presSubsOffline t what base actor target m1 m2 tgt sk b).crashK = c.crashK := rfl
+@[simp] theorem Ctx.presSubsOffline_snap : (c.presSubsOffline t what base actor target m1 m2 tgt sk b).snap = c.snap := rfl
+@[simp] theorem Ctx.presSubsOffline_routed : (c.presSubsOffline t what base actor target m1 m2 tgt sk b).routed = c.routed := rfl
+@[simp] theorem Ctx.presSingleOffline_frames : (c.presSingleOffline t uid m1 what base actor target sk b).frames = c.frames := rfl
+@[simp] theorem Ctx.presSingleOffline_w : (c.presSingleOffline t uid m1 what base actor target sk b).w = c.w := rfl
+@[simp] theorem Ctx.presSingleOffline_pushes : (c.presSingleOffline t uid m1 what base actor target sk b).pushes = c.pushes := rfl
+@[simp] theorem Ctx.presSingleOffline_calls : (c.presSingleOffline t uid m1 what base actor target sk b).calls = c.calls := rfl
+@[simp] theorem Ctx.presSingleOffline_callNo : (c.presSingleOffline t uid m1 what base actor target sk b).callNo = c.callNo := rfl
+@[simp] theorem Ctx.presSingleOffline_failK : (c.presSingleOffline t uid m1 what base actor target sk b).failK = c.failK := rfl
+@[simp] theorem Ctx.presSingleOffline_crashK : (c.presSingleOffline t uid m1 what base actor target sk b).crashK = c.crashK := rfl
+@[simp] theorem Ctx.presSingleOffline_snap : (c.presSingleOffline t uid m1 what base actor target sk b).snap = c.snap := rfl
+@[simp] theorem Ctx.presSingleOffline_routed : (c.presSingleOffline t uid m1 what base actor target sk b).routed = c.routed := rfl
+@[simp] theorem Ctx.presSingleOfflineOffline_frames : (c.presSingleOfflineOffline uid orig what base actor target sk).frames = c.frames := rfl
+@[simp] theorem Ctx.presSingleOfflineOffline_w : (c.presSingleOfflineOffline uid orig what base actor target sk).w = c.w := rfl
+@[simp] theorem Ctx.presSingleOfflineOffline_pushes : (c.presSingleOfflineOffline uid orig what base actor target sk).pushes = c.pushes := rfl
+@[simp] theorem Ctx.presSingleOfflineOffline_calls : (c.presSingleOfflineOffline uid orig what base actor target sk).calls = c.calls := rfl
+@[simp] theorem Ctx.presSingleOfflineOffline_callNo : (c.presSingleOfflineOffline uid orig what base actor target sk).callNo = c.callNo := rfl
+@[simp] theorem Ctx.presSingleOfflineOffline_failK : (c.presSingleOfflineOffline uid orig what base actor target sk).failK = c.failK := rfl
+@[simp] theorem Ctx.presSingleOfflineOffline_crashK : (c.presSingleOfflineOffline uid orig what base actor target sk).crashK = c.crashK := rfl
+@[simp] theorem Ctx.presSingleOfflineOffline_snap : (c.presSingleOfflineOffline uid orig what base actor target sk).snap = c.snap := rfl
+@[simp] theorem Ctx.presSingleOfflineOffline_routed : (c.presSingleOfflineOffline uid orig what base actor target sk).routed = c.routed := rfl
+@[simp] theorem Ctx.infoSubsOffline_frames (q : Int) : (c.infoSubsOffline t uid what q sk).frames = c.frames := rfl
+@[simp] theorem Ctx.infoSubsOffline_w (q : Int) : (c.infoSubsOffline t uid what q sk).w = c.w := rfl
+@[simp] theorem Ctx.infoSubsOffline_pushes (q : Int) : (c.infoSubsOffline t uid what q sk).pushes = c.pushes := rfl
+@[simp] theorem Ctx.infoSubsOffline_calls (q : Int) : (c.infoSubsOffline t uid what q sk).calls = c.calls := rfl
+@[simp] theorem Ctx.infoSubsOffline_callNo (q : Int) : (c.infoSubsOffline t uid what q sk).callNo = c.callNo := rfl
+@[simp] theorem Ctx.infoSubsOffline_failK (q : Int) : (c.infoSubsOffline t uid what q sk).failK = c.failK := rfl
+@[simp] theorem Ctx.infoSubsOffline_crashK (q : Int) : (c.infoSubsOffline t uid what q sk).crashK = c.crashK := rfl
+@[simp] theorem Ctx.infoSubsOffline_snap (q : Int) : (c.infoSubsOffline t uid what q sk).snap = c.snap := rfl
+@[simp] theorem Ctx.infoSubsOffline_routed (q : Int) : (c.infoSubsOffline t uid what q sk).routed = c.routed := rfl
+end
+
 /-- presSubsOnlineDirect (pres.go:345-386): straight to the attached sessions -/
 def Ctx.presDirect (c : Ctx) (t : Topic) (p : PresMsg) : Ctx :=
   t.sessions.foldl (fun c (sid, uid) =>
